@@ -251,7 +251,9 @@ def spec_opd(optic, field, w, px, py, xpl):
     # (measured: 3e-8 mm = 6e-5 waves on a lens with three even aspheres).  The predicate allows for that.
     tols = [float(getattr(s_.geometry, 'tol', 0.0)) for s_ in surfs
             if type(s_.geometry).__name__ not in ('Plane', 'StandardGeometry')]
-    atol = ATOL + 2.0 * sum(tols) / lam
+    # ... and for the conditioning of the crossing with a reference sphere of radius R (nearly image-telecentric
+    # lenses have their exit pupil hundreds of metres away: R^2 - (...) cancels), about 50 ulp of R
+    atol = ATOL + 2.0 * sum(tols) / lam + 1e-14 * R / lam
     return {'atol': atol, 'opd': ((Wn[0] - Wn[1:]) / lam), 'opd_n1': ((W1[0] - W1[1:]) / lam), 'domain': domain[1:] & domain[0],
             'common_wavefront': parallel, 'scale': float(np.nanmax(np.abs(opl)) / lam) if nray else 0.0,
             'n_img': n_img, 'n_obj': n_obj, 'R': R}
